@@ -70,6 +70,7 @@ def gen(rnd):
         if withlink:
             add_file('secret.key', 0o600)
             files['tree/x/lnk'] = ('->../../secret.key', None)
+            files['tree/x/inner'] = ('->../top.txt', None)
         strip = rnd.random() < 0.5
         excl = rnd.random() < 0.6
         kw = "install_dir: 'share/tr', follow_symlinks: false" + (", strip_directory: true" if strip else '') + (", exclude_files: ['skip.me', 'keep/k.txt'], exclude_directories: ['skipdir']" if excl else '')
@@ -89,6 +90,7 @@ def gen(rnd):
                 dd = os.path.dirname(dd)
         if withlink:
             exp.append((base + '/x/lnk', 'link:../../secret.key', None, tag, ''))
+            exp.append((base + '/x/inner', 'link:../top.txt', None, tag, ''))
         if not excl:
             dirs.add('skipdir')
         else:
@@ -241,7 +243,7 @@ def run(REG, tier, seed, jobs):
     seeds = [seed * 32452843 + i for i in range(n)]
     ev, nt, fails = pmap(_inst_chunk, chunked(iter(seeds), 2), jobs)
     return {'parts': [{'name': 'C11/bounded/real-meson-install-runs', 'function': 'meson install --no-rebuild --destdir (real copy / chmod / symlink / log)',
-                       'bound': f'{n} generated projects (install_data with relative and absolute dirs, modes and tags; headers; man pages; install_subdir with excludes, strip_directory and a symbolic link pointing out of the tree; emptydir; symlink; a subproject; names with blanks and non-ASCII; 3 prefixes) x 5 selections (all, --tags, --skip-subprojects, both in two ways) + reinstall, uninstall by the log, --dry-run',
+                       'bound': f'{n} generated projects (install_data with relative and absolute dirs, modes and tags; headers; man pages; install_subdir with excludes, strip_directory and symbolic links pointing out of and into the tree; emptydir; symlink; a subproject; names with blanks and non-ASCII; 3 prefixes) x 5 selections (all, --tags, --skip-subprojects, both in two ways) + reinstall, uninstall by the log, --dry-run',
                        'evaluations': ev, 'distinct_nontrivial': nt, 'rule': 'every installation', 'exhaustive': False, 'failures': fails}]}
 
 
